@@ -145,6 +145,12 @@ enum Who {
 
 pub fn judge_c13(script: &SockScript, l: &SockLog, check_order: bool) -> Vec<SFinding> {
     let mut v = vec![];
+    if let Some(m) = crate::duo::oracles::first_wrong_conn_id(l.wire.iter().enumerate().map(|(i, w)| (l.wire_from[i], l.wire_to[i], w.ptype, w.conn_id, w.injected, w.parse_ok))) {
+        v.push(sf("C11", "emitted-wellformed", "emitted/wrong-connection-id", m));
+    }
+    if let Some(w) = l.wire.iter().find(|w| !w.injected && !w.parse_ok) {
+        v.push(sf("C11", "emitted-wellformed", "emitted/unparseable", format!("send #{} at {} us is rejected by the reference parser", w.k, w.t_us)));
+    }
     if let Some(p) = &l.panicked {
         v.push(sf("C10", "panic", "panic/in-socket-run", p.clone()));
         return v;
@@ -406,7 +412,7 @@ pub fn replay_json(script: &SockScript, kind: &str) -> Value {
     json!({"engine": "sock", "kind": kind, "script": script})
 }
 
-fn explore_c13(ctx: &Ctx, name: &str, alpha: &[A13], len: usize, max_live: usize, grouped: bool, seeds: &[u64], out: &mut Outcome) {
+pub fn explore_c13(ctx: &Ctx, name: &str, alpha: &[A13], len: usize, max_live: usize, grouped: bool, seeds: &[u64], out: &mut Outcome) {
     let seqs = seqs_over(alpha, len);
     let mut cases: Vec<(Vec<(A13, bool)>, u64)> = vec![];
     for s in &seqs {
